@@ -56,13 +56,28 @@ class Concat(Expr):
     @functools.cached_property
     def _meta(self):
         # ignore DataFrame without columns to avoid dtype upcasting
+        metas = [
+            meta_nonempty(df._meta)
+            for df in self._frames
+            if df.ndim < 2 or len(df._meta.columns) > 0
+        ]
+        if (
+            self.axis == 0
+            and self.join == "inner"
+            and all(is_dataframe_like(m) for m in metas)
+        ):
+            # An inner concatenation only keeps the labels that all frames
+            # share. ``methods.concat`` keeps every column of the first frame
+            # if that frame has categorical columns, so select them up front
+            shared = [
+                col
+                for col in metas[0].columns
+                if all(col in m.columns for m in metas[1:])
+            ]
+            metas = [m.loc[:, m.columns.isin(shared)] for m in metas]
         meta = make_meta(
             methods.concat(
-                [
-                    meta_nonempty(df._meta)
-                    for df in self._frames
-                    if df.ndim < 2 or len(df._meta.columns) > 0
-                ],
+                metas,
                 join=self.join,
                 filter_warning=False,
                 axis=self.axis,
